@@ -1,0 +1,19 @@
+//go:build verif
+
+package writecache
+
+import (
+	public_types "lunar/engine/streams/public-types"
+	streamtypes "lunar/engine/streams/types"
+)
+
+// VerifSetStore replaces the store of cached responses of a WriteCache processor, so that the
+// verification harness can give a ReadCache and a WriteCache processor one common store (what
+// the shared state of a deployment gives them). Reports whether p is a WriteCache processor.
+func VerifSetStore(p streamtypes.ProcessorI, store public_types.SharedStateI[[]byte]) bool {
+	proc, ok := p.(*writeCacheProcessor)
+	if ok {
+		proc.cachedResponses = store
+	}
+	return ok
+}
